@@ -439,6 +439,39 @@ def r5(ctx):
         ctx.ob('C08.R5', fn, c, okk, 'insertion under the key', why)
 
 
+def r7(ctx):
+    ctx.rule('C08.R7', 'a chained definition is stored under the ID prefix that is common to ALL its parts: in Message::create the '
+             'length the ID is cut to is reduced inside the loop over the parts, at a mismatch between the current part and '
+             'the first one; a prefix computed from some parts only hides the other parts from the lookup', minimum=1)
+    fb = ctx.fb
+    fn = fb.fn('ebusd::Message::create')
+    ctx.touch(fn)
+    resizes = [c for c in fn.all('CXXMemberCallExpr') if (fn.nodes[c].get('callee') or '').endswith('::resize') and fn.nodes[c].get('args')]
+    loops = [l for l in fn.all('WhileStmt') if 'getline' in fn.key(fn.nodes[l].get('cond', -1))]
+    n = 0
+    for c in resizes:
+        lenv = fn.key(fn.nodes[c]['args'][0])
+        if not lenv.isidentifier():
+            continue
+        decl = fn.ref_decl(fn.nodes[c]['args'][0])
+        # only the resize of the ID to the chain prefix: its length variable is compared with the ID size
+        ot = fn.nodes.get(fn.strip(fn.nodes[c].get('obj', -1)), {}).get('t') or ''
+        if 'vector<unsigned char' not in ot and 'vector<ebusd::symbol_t' not in ot and 'vector<symbol_t' not in ot:
+            continue
+        n += 1
+        inloop = set()
+        for l in loops:
+            inloop |= set(fn.walk(l))
+        upd = [nid for nid, d, rhs, op, lhs in fn.assignments() if d == decl and op == '=' and nid in inloop]
+        ok = False
+        for u in upd:
+            ua = [a[0] for a in fn.atoms(u)]
+            if any('[' in k and ' == ' in k and k.count('[') >= 2 for k in ua):
+                ok = True       # reduced at a byte mismatch between two IDs
+        ctx.ob('C08.R7', fn, c, ok, 'chain ID prefix length %s' % lenv, 'reduced per part at a mismatch with the first part: %s' % ok)
+    if n < 1:
+        raise AnalysisBroken('C08.R7: cut of the chain ID to its common prefix not found in Message::create')
+
 def run(ctx):
     r5(ctx)
     find, mv = r1(ctx)
@@ -449,3 +482,4 @@ def run(ctx):
     ctx.borrow(c11.r4, {'C11.R4': 'C08.R6'},
                'the source bits of the lookup key are the master number of QQ: two masters with the same number share the '
                'definitions that are restricted to one of them')
+    r7(ctx)
